@@ -105,7 +105,13 @@ def run_cfg(args):
     cc = rng.randrange(16)
     sap = rng.choice([SAPIdentifier.IP_PacketData, SAPIdentifier.ShortData, SAPIdentifier.UDP_IP_compression,
                       SAPIdentifier.Proprietary])
-    hdr = gen.data_header(rng, "C" if conf else "U", btf=N, a=conf, sap=sap,
+    # the confirmation mode of a generated transmission is its header's A bit (response requested); which header FORMAT announces
+    # it is the caller's choice and independent of the mode: the packet data header of the mode (two in three), the one of the other
+    # mode, or - where the block count fits its six bits and nothing is padded - the defined short data header, which keeps the
+    # count in another field (appended_blocks)
+    pick = seed % 6
+    hf = ("C" if conf else "U") if pick < 4 else (("U" if conf else "C") if pick == 4 or N > 63 or pad else "S")
+    hdr = gen.data_header(rng, hf, btf=N, a=conf, sap=sap,
                           llid_source=rng.randrange(1, 1 << 24), pad=pad)
     trace = {"cfg": {"L": L, "rate": rate, "conf": conf, "p": p}, "ev": [], "seed": seed,
              "fin": None, "gen_error": "", "extra": {k: cfg[k] for k in ("late", "noise") if cfg.get(k)}}
@@ -217,7 +223,8 @@ def run_cfg(args):
     hdrs = [pb for pb in parsed if type(pb.data).__name__ == "DataHeader"]
     trace["fin"] = {
         "nbursts": len(parsed), "preBtfs": pre,
-        "hdrBtf": hdrs[0].data.blocks_to_follow if hdrs else -1,
+        # the number of blocks the header announces, in whichever field its format keeps it (blocks_to_follow / appended_blocks)
+        "hdrBtf": (hdrs[0].data.get_blocks_to_follow() or 0) if hdrs else -1,
         "hdrPad": hdrs[0].data.pad_octet_count if hdrs else -1,
         "started": nstart, "ended": nend, "blocks": blocks,
         "dataOk": bool(handed) and hdr_pad >= 0 and data == payload + bytes(hdr_pad),
